@@ -543,7 +543,7 @@ CheckpointAgreed ==
 CheckpointIsLatestWhenSet ==
     [][ (checkpoint' # "" /\ checkpoint' # checkpoint) =>
             \A a \in Addr : cmode'[a] # "NONE" => Last(rsnaps'[a]) = checkpoint' ]_vars
-SnapSamePoint == \A a, b \in Addr : \A n \in DOMAIN rsnapAt[a] \cap DOMAIN rsnapAt[b] :
+SnapSamePoint == \A a, b \in Members : \A n \in DOMAIN rsnapAt[a] \cap DOMAIN rsnapAt[b] :
                     rsnapAt[a][n] = rsnapAt[b][n]
 SnapNeedsAllRW == [][ (op'.name = "Snapshot" /\ res' # "refused") =>
                     Cardinality(RWs(cmode)) = RF ]_vars
